@@ -677,11 +677,13 @@ class LLMGenerationActions:
                     try:
                         # We parse it the same way it will be parsed when the flow is started,
                         # i.e., as the body of a flow definition.
-                        parse_colang_file(
+                        parsed = parse_colang_file(
                             "dynamic.co",
                             content="define flow dynamic:\n"
                             + textwrap.indent("\n".join(lines), "  "),
                         )
+                        if len(parsed["flows"]) != 1:
+                            raise ValueError("Not the body of a single flow")
                         break
                     except Exception as e:
                         # If we could not parse the flow on the last line, we return a general response
